@@ -163,7 +163,29 @@ def rule_d(prog, rep):
     where = fi.fq
     common_t = None
     # stores of the where branch and appends of the scan branch
-    wh = [e for e in I.events if e.kind == "store_sub" and any(b.op == "alloc" and b.args[0] == "dict" for b in tm.alts(e["base"])) and tm.contains(e["value"], lambda x: x.op == "call" and tm.callee_name(x) in ("numpy.where", "numpy.flatnonzero", "numpy.nonzero", ".nonzero"))]
+    def _selects_by_value(x):
+        """numpy.where(<a> == <v>) / flatnonzero / nonzero, or (<a> == <v>).nonzero(): the positions where the input equals a value"""
+        if x.op != "call" or tm.callee_name(x) not in ("numpy.where", "numpy.flatnonzero", "numpy.nonzero", ".nonzero"):
+            return False
+        operands = list(x.args[1]) + ([x.args[0].args[0]] if tm.callee_name(x) == ".nonzero" else [])
+        return any(tm.contains(a, lambda y: y.op == "cmp" and y.args[0] == "==") for a in operands)
+
+    stores = [e for e in I.events if e.kind == "store_sub" and any(b.op == "alloc" and b.args[0] == "dict" for b in tm.alts(e["base"]))]
+    wh = [e for e in stores if tm.contains(e["value"], _selects_by_value)]
+    for e in stores:
+        if e not in wh and e["index"].op == "tuple" and tm.contains(e["value"], lambda y: y.op == "sub" and y.args[1].op == "slice" and tm.contains(y.args[0], lambda z: z.op == "call" and (tm.callee_name(z) or "") in ("numpy.argsort", ".argsort", "numpy.lexsort"))):
+            # consecutive runs of a sort order, delimited by running totals of the per-value counts: right only when the
+            # values are visited in ascending order - the order of a caller-supplied `counts` dict is the caller's
+            loops = [I.loopinfo[l]["iter"] for l in e.loops if l in I.loopinfo]
+            from_caller = any(tm.contains(it, lambda z: z == tm.param("counts")) for it in loops)
+            if from_caller:
+                rep.violated("R-C01-d", "%s@%d" % (where, e.line), "the rows stored under a value are the positions where the input equals that value",
+                             "the rows are the next count(value) elements of ONE argsort of the input, taken in the iteration order of `counts`: a caller-supplied counts dict need not iterate in ascending key order "
+                             "(dict(Counter(a)) is first-seen order), and then each value receives another value's rows", witness={"inputs": "from_array(a, counts={2: 3, 0: 5, 1: 2}) with correct but unsorted counts"})
+                continue
+        if e not in wh and e["index"].op == "tuple":
+            rep.undecided("R-C01-d", "%s@%d" % (where, e.line), "the rows stored under a value are the positions where the input equals that value",
+                          "entry %s is not filled from a selection numpy.where(<input> == <value>): %s" % (tm.show(e["index"])[:40], tm.show(e["value"])[:60]))
     sc = [e for e in I.events if e.kind == "call" and e["method"] == "append" and e["recv"] is not None and e["recv"].op == "sub"
           and any(b.op == "call" and tm.callee_name(b) == "collections.defaultdict" for b in tm.alts(e["recv"].args[0]))]
     if len(wh) != 2 or len(sc) != 2:
